@@ -15,6 +15,7 @@ pub const JOB_C03_RUN: u8 = 30;
 pub const JOB_C03_EXAMINE: u8 = 31;
 pub const JOB_C16_RUN: u8 = 32;
 pub const JOB_C18_RUN: u8 = 33;
+pub const JOB_C18_MASKS: u8 = 34;
 
 // ---------------------------------------------------------------------------------------------
 // the shim's control interface (looked up at run time; absent when not preloaded)
@@ -369,6 +370,9 @@ pub fn c03_letters() -> Vec<Letter> {
     v.push(Letter { kind: L_SYNC_ALL, map: 0, handle: H_CLONE, key: 0, val: 0 });
     v.push(Letter { kind: L_DB_SYNC_DATA, map: 0, handle: 0, key: 0, val: 0 });
     v.push(Letter { kind: L_DB_SYNC_ALL, map: 0, handle: 0, key: 0, val: 0 });
+    // a read-only call between the updates and the durability call must not make the latter a no-op
+    v.push(Letter { kind: L_FILL, map: 0, handle: H_FIRST, key: 0, val: 0 });
+    v.push(Letter { kind: L_GET, map: 0, handle: H_FIRST, key: 0, val: 0 });
     v
 }
 
@@ -1123,6 +1127,79 @@ fn c18_run(bw: &mut BWorker, payload: &[u8]) -> Vec<u8> {
     out.enc()
 }
 
+pub const SPLICE_KINDS: [&str; 4] = ["get(k0)", "get(k1)", "len + is_empty", "full iteration"];
+
+/// one history, executed plain and then once for every non-empty set of positions x every kind of
+/// read-only call spliced in after exactly those positions; all executions must leave the same files
+fn c18_masks(bw: &mut BWorker, payload: &[u8], io: &mut WorkerIo) -> Vec<u8> {
+    let mut r = Rd::new(payload);
+    let single_only = r.u8() == 1;
+    let nseq = r.u32();
+    let seqs: Vec<Vec<u8>> = (0..nseq).map(|_| r.vec()).collect();
+    let mut cfg = bw.cfg.clone();
+    cfg.flags = F_RETURN_IMAGES;
+    let saved = std::mem::replace(&mut bw.cfg, cfg.clone());
+    let mut out = BOutcome::default();
+    'outer: for (si, seq) in seqs.iter().enumerate() {
+        io.progress(si as u64);
+        bw.cfg.depth = seq.len() as u8;
+        let mut o0 = BOutcome::default();
+        if bw.run_sequence(seq, &mut o0, None).is_some() {
+            *out.counters.entry("whole_histories_failing".into()).or_insert(0) += 1;
+            continue;
+        }
+        out.sequences += 1;
+        out.calls += o0.calls;
+        let plain = o0.images.clone();
+        for mask in 1u32..(1 << seq.len()) {
+            if single_only && mask.count_ones() != 1 {
+                continue;
+            }
+            for kind in 0..SPLICE_KINDS.len() {
+                let mut hook = |cfg: &BCfg, st: &mut BState, pos: usize, l: &Letter, ok: bool| -> Option<String> {
+                    if !ok || (mask >> pos) & 1 == 0 {
+                        return None;
+                    }
+                    let mi = l.map as usize % cfg.maps.len();
+                    let keys = cfg.maps[mi].keys.clone();
+                    if let Ok(h) = st.handle(cfg, mi, 0) {
+                        match kind {
+                            0 => {
+                                let _ = guard(|| h.get(&keys[0]));
+                            }
+                            1 => {
+                                let _ = guard(|| h.get(&keys[keys.len() - 1]));
+                            }
+                            2 => {
+                                let _ = guard(|| h.len());
+                                let _ = guard(|| h.is_empty());
+                            }
+                            _ => {
+                                let _ = guard_plain(|| h.items());
+                            }
+                        }
+                    }
+                    None
+                };
+                let mut o1 = BOutcome::default();
+                let res = bw.run_sequence(seq, &mut o1, Some(&mut hook));
+                out.calls += o1.calls;
+                *out.counters.entry("spliced_variants".into()).or_insert(0) += 1;
+                if res.is_some() || o1.images != plain {
+                    let positions: Vec<usize> = (0..seq.len()).filter(|p| (mask >> p) & 1 == 1).map(|p| p + 1).collect();
+                    let msg = format!("the history leaves different files when {} is called after call(s) {:?} (and nowhere else): {}", SPLICE_KINDS[kind], positions, match res { Some((_, e)) => e, None => Image::unpack(&plain[0]).describe_diff(&Image::unpack(&o1.images[0])) });
+                    let mut case = seq.clone();
+                    case.push(255);
+                    out.failure = Some((case, seq.len(), format!("history:splice:{}", SPLICE_KINDS[kind].replace(' ', "")), msg));
+                    break 'outer;
+                }
+            }
+        }
+    }
+    bw.cfg = saved;
+    out.enc()
+}
+
 pub fn c18_whole_histories(ctx: &mut Ctx) {
     let seed = ctx.seed;
     let thorough = ctx.thorough();
@@ -1198,6 +1275,85 @@ pub fn c18_whole_histories(ctx: &mut Ctx) {
             break;
         }
     }
+    // every placement of every kind of read-only call (in-process comparison)
+    // quick: depth 3 with every set of positions + depth 4 with every single position;
+    // thorough: depth 4 with every set of positions + depth 5 with every single position
+    let passes: Vec<(u8, bool)> = if thorough { vec![(4, false), (5, true)] } else { vec![(3, false), (4, true)] };
+    for (mdepth, single_only) in passes {
+        if !ctx.run.violations.is_empty() {
+            break;
+        }
+        let mut mcfg = cfg.clone();
+        mcfg.depth = mdepth;
+        let a2 = mcfg.letters.len() as u64;
+        let total2 = a2.pow(mcfg.depth as u32);
+        let mut jobs: Vec<Vec<u8>> = Vec::new();
+        let per = 24u64;
+        let mut idx = 0u64;
+        while idx < total2 {
+            let hi = (idx + per).min(total2);
+            let mut b = Buf::new();
+            b.u8(JOB_C18_MASKS).u8(single_only as u8).u32((hi - idx) as u32);
+            for i in idx..hi {
+                let mut seq = vec![0u8; mcfg.depth as usize];
+                let mut x = i;
+                for p in (0..mcfg.depth as usize).rev() {
+                    seq[p] = (x % a2) as u8;
+                    x /= a2;
+                }
+                b.bytes(&seq);
+            }
+            jobs.push(b.0);
+            idx = hi;
+        }
+        let t1 = ctx.run.elapsed();
+        let limit = if thorough { 400.0 } else { 25.0 };
+        let mut variants = 0i64;
+        let mut hist = 0u64;
+        for chunk in jobs.chunks(ctx.pool.size() * 2) {
+            if ctx.run.elapsed() - t1 > limit {
+                complete = false;
+                break;
+            }
+            let results = ctx.pool.map(chunk, |i| i);
+            for res in results {
+                match res {
+                    JobResult::Done(b) => {
+                        let o = BOutcome::dec(&b);
+                        hist += o.sequences;
+                        ctx.transitions += o.calls;
+                        variants += o.counters.get("spliced_variants").copied().unwrap_or(0);
+                        if let Some((mut seq, pos, key, msg)) = o.failure {
+                            seq.pop();
+                            let mut case = Buf::new();
+                            case.bytes(&seq);
+                            let mut story = seq_story(&mcfg, &seq, pos);
+                            story.push(format!("observed: {msg}"));
+                            ctx.run.violation(Violation { prop: "C18".into(), key, message: msg, replay: Replay { engine: "C18m".into(), config: mcfg.enc(), case: case.0, story } });
+                        }
+                    }
+                    JobResult::Crashed { how, .. } => {
+                        ctx.run.add("whole_histories_crashed", 1);
+                        ctx.run.notes.push(format!("a splice-enumeration job crashed: {how}"));
+                    }
+                }
+            }
+            if !ctx.run.violations.is_empty() {
+                complete = false;
+                break;
+            }
+        }
+        ctx.run.add("double_executions", variants);
+        ctx.states += hist;
+        eprintln!("[C18] splice enumeration depth {}: {hist} histories x ({} x {} kinds) = {variants} spliced executions {:.1}s", mcfg.depth, if single_only { "every single position".to_string() } else { format!("2^{} - 1 position sets", mcfg.depth) }, SPLICE_KINDS.len(), ctx.run.elapsed() - t1);
+        ctx.runs.push(J::obj(vec![
+            ("label", J::s("engine B: every update history of this depth executed plain and then once for every non-empty set of positions x every kind of read-only call (get k0, get k1, len+is_empty, full iteration) spliced in after exactly those positions; files compared after close")),
+            ("depth", J::Int(mcfg.depth as i64)),
+            ("position_sets", J::s(if single_only { "every single position" } else { "every non-empty set of positions" })),
+            ("histories", J::Int(hist as i64)),
+            ("spliced_executions", J::Int(variants)),
+        ]));
+    }
     if !complete {
         ctx.all_closed = false;
     }
@@ -1210,6 +1366,30 @@ pub fn c18_whole_histories(ctx: &mut Ctx) {
         ("histories_compared", J::Int(compared as i64)),
         ("all_histories_of_that_depth", J::Bool(complete)),
     ]));
+}
+
+pub fn replay_c18m(config: &[u8], case: &[u8]) -> i32 {
+    let cfg = BCfg::dec(config);
+    let mut r = Rd::new(case);
+    let seq = r.vec();
+    for l in seq_story(&cfg, &seq, seq.len()) {
+        println!("  {l}");
+    }
+    let mut bw = BWorker::new(cfg);
+    let mut b = Buf::new();
+    b.u8(0).u32(1).bytes(&seq);
+    let mut io = WorkerIo::sink();
+    let o = BOutcome::dec(&c18_masks(&mut bw, &b.0, &mut io));
+    match o.failure {
+        Some((_, _, key, msg)) => {
+            println!("REPLAY VIOLATION [{key}]: {msg}");
+            1
+        }
+        None => {
+            println!("REPLAY: no violation reproduced");
+            0
+        }
+    }
 }
 
 pub fn replay_c18(config: &[u8], case: &[u8]) -> i32 {
@@ -1243,6 +1423,7 @@ pub fn worker_job(kind: u8, payload: &[u8], io: &mut WorkerIo) -> Vec<u8> {
         JOB_C03_EXAMINE => c03_examine(bw, payload),
         JOB_C16_RUN => c16_run(bw, payload, io),
         JOB_C18_RUN => c18_run(bw, payload),
+        JOB_C18_MASKS => c18_masks(bw, payload, io),
         _ => Vec::new(),
     })
 }
